@@ -1,34 +1,318 @@
 import HW.Model.Proc
 import HW.Spec.Lifecycle
+import HW.Proofs.ProcHoare
 namespace HW.Proc
 
 /-- containment: no panic ever propagates out of Start / Invoke / tryRestart. -/
 theorem no_escape (f : Nat) (s : PSt) :
-    (start f s).2 = none ∧ (∀ msgs, (invoke f s msgs).2 = none) ∧ (∀ v, (tryRestart f s v).2 = none) := by
-  sorry
+    (start f s).2 = none ∧ (∀ msgs, (invoke f s msgs).2 = none) ∧ (∀ v, (tryRestart f s v).2 = none) :=
+  no_escape' f s
 
 theorem runHistory_no_escape (max mw : Nat) (script : List Outcome) (batches : List (List Msg)) :
-    (runHistory max mw script batches).2 = none := by
-  sorry
+    (runHistory max mw script batches).2 = none :=
+  runHistory_no_escape' max mw script batches
+
+/-! ### C13 -/
+
+theorem allWrapped_append (n : Nat) (tr tr' : List Ev) :
+    allWrapped n (tr ++ tr') = (allWrapped n tr && allWrapped n tr') := by
+  induction tr with
+  | nil => simp [allWrapped]
+  | cons e tr ih => cases e <;> simp [allWrapped, ih, Bool.and_assoc]
+
+def WrapInv (mw : Nat) (s : PSt) : Prop := s.mwLen = mw ∧ allWrapped mw s.trace = true
+
+theorem wrapInv (mw : Nat) : Inv (WrapInv mw) where
+  fuel := fun s h => h
+  mbuf := fun s b h => h
+  recv := by
+    intro s m ⟨h1, h2⟩
+    obtain ⟨sc, he, -⟩ := callRecv_fst s m
+    rw [he]; simp [WrapInv, allWrapped_append, allWrapped, h1, h2]
+  pre := by intro s ⟨h1, h2⟩; simp [WrapInv, startPre, emit, allWrapped_append, allWrapped, h1, h2]
+  ev := by intro s k _ ⟨h1, h2⟩; simp [WrapInv, emit, allWrapped_append, allWrapped, h1, h2]
+  cleanup := by
+    intro s c ⟨h1, h2⟩
+    rw [cleanup_eq]; cases c <;> simp [WrapInv, allWrapped_append, allWrapped, h1, h2]
+  inboxStart := by
+    intro s ⟨h1, h2⟩
+    unfold inboxStart; split <;> simp [WrapInv, emit, allWrapped_append, allWrapped, h1, h2]
+  restart := by intro s ⟨h1, h2⟩ _; simp [WrapInv, emit, allWrapped_append, allWrapped, h1, h2]
 
 /-- every delivery of every history goes through the whole middleware chain. -/
 theorem all_wrapped (max mw : Nat) (script : List Outcome) (batches : List (List Msg)) :
-    allWrapped mw (runHistory max mw script batches).1.trace = true := by
-  sorry
+    allWrapped mw (runHistory max mw script batches).1.trace = true :=
+  ((wrapInv mw).runHistory max mw script batches ⟨rfl, rfl⟩).2
+
+/-! ### C05/C06: restart numbering -/
+
+theorem restartNumbers_append (tr tr' : List Ev) :
+    restartNumbers (tr ++ tr') = restartNumbers tr ++ restartNumbers tr' := by
+  induction tr with
+  | nil => simp [restartNumbers]
+  | cons e tr ih =>
+    cases e with
+    | ev k => cases k <;> simp [restartNumbers, ih]
+    | _ => simp [restartNumbers, ih]
+
+def RestartInv (max : Nat) (s : PSt) : Prop :=
+  s.maxRestarts = max ∧ restartNumbers s.trace = (List.range s.restarts).map (· + 1) ∧ s.restarts ≤ max
+
+theorem restartInv (max : Nat) : Inv (RestartInv max) where
+  fuel := fun s h => h
+  mbuf := fun s b h => h
+  recv := by
+    intro s m ⟨h1, h2, h3⟩
+    obtain ⟨sc, he, -⟩ := callRecv_fst s m
+    rw [he]; simp [RestartInv, restartNumbers_append, restartNumbers, h1, h2, h3]
+  pre := by
+    intro s ⟨h1, h2, h3⟩; simp [RestartInv, startPre, emit, restartNumbers_append, restartNumbers, h1, h2, h3]
+  ev := by
+    intro s k hk ⟨h1, h2, h3⟩
+    cases k <;> simp_all [RestartInv, emit, restartNumbers_append, restartNumbers]
+  cleanup := by
+    intro s c ⟨h1, h2, h3⟩
+    rw [cleanup_eq]; cases c <;> simp [RestartInv, restartNumbers_append, restartNumbers, h1, h2, h3]
+  inboxStart := by
+    intro s ⟨h1, h2, h3⟩
+    unfold inboxStart; split <;> simp [RestartInv, emit, restartNumbers_append, restartNumbers, h1, h2, h3]
+  restart := by
+    intro s ⟨h1, h2, h3⟩ hne
+    simp [RestartInv, emit, restartNumbers_append, restartNumbers, h1, h2, List.range_succ]
+    omega
 
 /-- restart events are numbered 1, 2, 3, … and there are at most `max` of them. -/
 theorem restarts_ok (max mw : Nat) (script : List Outcome) (batches : List (List Msg)) :
     restartsOK max (runHistory max mw script batches).1.trace = true := by
-  sorry
+  obtain ⟨h1, h2, h3⟩ := (restartInv max).runHistory max mw script batches ⟨rfl, rfl, Nat.zero_le _⟩
+  simp [restartsOK, h2, h3]
+
+/-! ### C04: life-cycle shape -/
+
+theorem lcRun_append (tr l : List Ev) : lcRun (tr ++ l) = l.foldl lcStep (lcRun tr) := by
+  simp [lcRun, List.foldl_append]
+
+/-- acceptor is fine so far and follows the current incarnation. -/
+def LBase (s : PSt) : Prop := (lcRun s.trace).ok = true ∧ (lcRun s.trace).cur = s.inc
+
+def LS (n f : Nat) (s : PSt) : Prop :=
+  3 * s.script.length + 2 ≤ f ∧ s.script.length ≤ n ∧ LBase s ∧
+  ((lcRun s.trace).phase = .none ∨ (lcRun s.trace).phase = .stopped) ∧ s.stopped = false
+
+/-- loop invariant of the delivery loop (no fuel). -/
+def LLoop (n : Nat) (s : PSt) : Prop :=
+  s.script.length ≤ n ∧ LBase s ∧ (lcRun s.trace).phase = .started ∧ s.stopped = false
+
+def LI (n f : Nat) (s : PSt) : Prop := 3 * s.script.length + 1 ≤ f ∧ LLoop n s
+
+def LT (n f : Nat) (s : PSt) : Prop :=
+  3 * s.script.length + 3 ≤ f ∧ s.script.length ≤ n ∧ LBase s ∧
+  ((lcRun s.trace).phase = .inited ∨ (lcRun s.trace).phase = .started) ∧ s.stopped = false
+
+def LQ (n : Nat) (s : PSt) : Prop :=
+  s.script.length ≤ n ∧ LBase s ∧
+  (s.stopped = true → (lcRun s.trace).phase = .stopped ∧ s.inboxOpen = false) ∧
+  (s.stopped = false → (lcRun s.trace).phase = .started)
+
+theorem LLoop_recv (n : Nat) (s : PSt) (k : Nat) (snd : Option Nat) (h : LLoop n s) :
+    LLoop n (callRecv s (.user k snd)).1 := by
+  obtain ⟨sc, he, hl⟩ := callRecv_fst s (.user k snd)
+  obtain ⟨h1, ⟨h2, h3⟩, h4, h5⟩ := h
+  rw [he]
+  simp [LLoop, LBase, lcRun_append, lcStep, h2, h3, h4, h5]
+  omega
+
+theorem LLoop_cleanup (n : Nat) (s : PSt) (c : Option Nat) (h : LLoop n s) : LQ n (cleanup s c) := by
+  obtain ⟨h1, ⟨h2, h3⟩, h4, h5⟩ := h
+  rw [cleanup_eq]
+  cases c <;> simp [LQ, LBase, lcRun_append, lcStep, h1, h2, h3, h4]
+
+theorem LLoop_fin (n : Nat) (s : PSt) (h : LLoop n s) : LQ n s := by
+  obtain ⟨h1, ⟨h2, h3⟩, h4, h5⟩ := h
+  simp [LQ, LBase, h1, h2, h3, h4, h5]
+
+theorem LQ_fin (n : Nat) (s : PSt) (h : LQ n s) : LQ n (fin s) := by
+  obtain ⟨h1, ⟨h2, h3⟩, h4, h5⟩ := h
+  unfold fin inboxStart
+  split
+  · exact ⟨h1, ⟨h2, h3⟩, h4, h5⟩
+  next hs =>
+    simp only [Bool.not_eq_true] at hs
+    split <;> simp [LQ, LBase, emit, lcRun_append, lcStep, h1, h2, h3, h5 hs, hs]
+
+/-- after `producer`, `recv initialized` (no panic), `ev initialized`, `recv started` (no panic),
+    `ev started` the acceptor is in phase started. -/
+theorem lTriple (n : Nat) : Triple (LS n) (LI n) (LT n) (LQ n) where
+  s0 := by intro s h; have := h.1; omega
+  i0 := by intro s h; have := h.1; omega
+  t0 := by intro s h; have := h.1; omega
+  sInit := by
+    intro f s s2 v ⟨hf, hn, ⟨hok, hcur⟩, hph, hst⟩ he
+    obtain ⟨sc, rfl, hl, hlt, -⟩ := callRecv_spec he
+    have hlt := hlt (by simp)
+    simp only [startPre, emit] at hl hlt
+    rcases hph with hph | hph <;>
+      simp [LT, LBase, startPre, emit, lcRun_append, lcStep, hok, hcur, hph, hst] <;> omega
+  sStarted := by
+    intro f s s2 s4 v ⟨hf, hn, ⟨hok, hcur⟩, hph, hst⟩ he1 he2
+    obtain ⟨sc, rfl, hl, -, -⟩ := callRecv_spec he1
+    obtain ⟨sc', rfl, hl', hlt, -⟩ := callRecv_spec he2
+    have hlt := hlt (by simp)
+    simp only [startPre, emit] at hl hl' hlt
+    rcases hph with hph | hph <;>
+      simp [LT, LBase, startPre, emit, lcRun_append, lcStep, hok, hcur, hph, hst] <;> omega
+  sMid := by
+    intro f s s2 s4 ⟨hf, hn, ⟨hok, hcur⟩, hph, hst⟩ he1 he2
+    have key : LI n f (emit s4 (.ev .started)) := by
+      obtain ⟨sc, rfl, hl, -, -⟩ := callRecv_spec he1
+      obtain ⟨sc', rfl, hl', -, -⟩ := callRecv_spec he2
+      simp only [startPre, emit] at hl hl'
+      rcases hph with hph | hph <;>
+        simp [LI, LLoop, LBase, startPre, emit, lcRun_append, lcStep, hok, hcur, hph, hst] <;> omega
+    exact ⟨fun _ => LQ_fin n _ (LLoop_fin n _ key.2), fun _ => key⟩
+  sFin := by
+    intro s h
+    exact LQ_fin n _ h
+  iFin := by
+    intro f s msgs s' ⟨_, h⟩ he
+    exact invokeLoop_fin (LLoop_recv n) (fun s id h => LLoop_cleanup n s _ h) (LLoop_fin n) h he
+  iPanic := by
+    intro f s msgs s' v buf ⟨hf, h⟩ he
+    have hlt := (invokeLoop_script msgs s).2 v buf (by rw [he])
+    rw [he] at hlt
+    obtain ⟨h1, h2, h3, h4⟩ : LLoop n s' :=
+      invokeLoop_panicked (LLoop_recv n) (fun s id h => LLoop_cleanup n s _ h) (LLoop_fin n) h he
+    refine ⟨?_, h1, h2, Or.inr h3, h4⟩
+    simp only at hlt ⊢; omega
+  tIerr := by
+    intro f s ⟨hf, hn, ⟨hok, hcur⟩, hph, hst⟩
+    obtain ⟨sc, he, hl⟩ := callRecv_fst s .stopped
+    rw [he]
+    rcases hph with hph | hph <;>
+      simp [LS, LBase, lcRun_append, lcStep, hok, hcur, hph, hst] <;> omega
+  tMax := by
+    intro f s ⟨hf, hn, ⟨hok, hcur⟩, hph, hst⟩ _
+    rw [cleanup_eq]
+    rcases hph with hph | hph <;>
+      simp [LQ, LBase, emit, lcRun_append, lcStep, hok, hcur, hph, hst, hn]
+  tRestart := by
+    intro f s ⟨hf, hn, ⟨hok, hcur⟩, hph, hst⟩ _
+    obtain ⟨sc, he, hl⟩ := callRecv_fst s .stopped
+    rw [he]
+    rcases hph with hph | hph <;>
+      simp [LS, LBase, emit, lcRun_append, lcStep, hok, hcur, hph, hst] <;> omega
 
 /-- life-cycle shape of every incarnation. -/
 theorem lifecycle_ok (max mw : Nat) (script : List Outcome) (batches : List (List Msg)) :
     lifecycleOK (runHistory max mw script batches).1.trace = true := by
-  sorry
+  have := (lTriple script.length).runHistory max mw script batches
+    (by simp [LS, LBase, lcRun])
+    (by
+      intro s ⟨h1, h2, h3, h4⟩ ho
+      refine ⟨by omega, h1, h2, ?_⟩
+      cases hs : s.stopped with
+      | true => have := (h3 hs).2; rw [this] at ho; cases ho
+      | false => exact ⟨h4 hs, rfl⟩)
+  exact this.2.1.1
+
+/-! ### C06: after the budget is exhausted -/
+
+theorem afterMaxOK_append (pre suf : List Ev) (h : Ev.ev .maxRestarts ∉ pre) :
+    afterMaxOK (pre ++ suf) = afterMaxOK suf := by
+  induction pre with
+  | nil => rfl
+  | cons e pre ih =>
+    simp only [List.mem_cons, not_or] at h
+    cases e with
+    | ev k =>
+      cases k with
+      | maxRestarts => exact absurd rfl h.1
+      | _ => simp [afterMaxOK, ih h.2]
+    | _ => simp [afterMaxOK, ih h.2]
+
+theorem afterMaxOK_of_not_mem (tr : List Ev) (h : Ev.ev .maxRestarts ∉ tr) : afterMaxOK tr = true := by
+  have := afterMaxOK_append tr [] h
+  simpa [afterMaxOK] using this
+
+def AMPre (s : PSt) : Prop := Ev.ev .maxRestarts ∉ s.trace
+def AMPost (s : PSt) : Prop :=
+  Ev.ev .maxRestarts ∉ s.trace ∨ (s.stopped = true ∧ s.inboxOpen = false ∧ afterMaxOK s.trace = true)
+
+theorem AMPre_recv (s : PSt) (m : LMsg) (h : AMPre s) : AMPre (callRecv s m).1 := by
+  obtain ⟨sc, he, -⟩ := callRecv_fst s m
+  rw [he]; simpa [AMPre] using h
+
+theorem AMPre_fin (s : PSt) (h : AMPre s) : AMPre (fin s) := by
+  unfold fin inboxStart
+  split
+  · exact h
+  · split <;> simpa [AMPre, emit] using h
+
+theorem amTriple : Triple (fun _ => AMPre) (fun _ => AMPre) (fun _ => AMPre) AMPost where
+  s0 := fun s h => Or.inl h
+  i0 := fun s h => Or.inl h
+  t0 := fun s h => Or.inl h
+  sInit := by
+    intro f s s2 v h he
+    have : AMPre (startPre s) := by simpa [AMPre, startPre, emit] using h
+    have := AMPre_recv _ .initialized this; rw [he] at this; exact this
+  sStarted := by
+    intro f s s2 s4 v h he1 he2
+    have h0 : AMPre (startPre s) := by simpa [AMPre, startPre, emit] using h
+    have h1 := AMPre_recv _ .initialized h0; rw [he1] at h1
+    have h1' : AMPre (emit s2 (.ev .initialized)) := by simpa [AMPre, emit] using h1
+    have h2 := AMPre_recv _ .started h1'; rw [he2] at h2
+    exact h2
+  sMid := by
+    intro f s s2 s4 h he1 he2
+    have h0 : AMPre (startPre s) := by simpa [AMPre, startPre, emit] using h
+    have h1 := AMPre_recv _ .initialized h0; rw [he1] at h1
+    have h1' : AMPre (emit s2 (.ev .initialized)) := by simpa [AMPre, emit] using h1
+    have h2 := AMPre_recv _ .started h1'; rw [he2] at h2
+    have h3 : AMPre (emit s4 (.ev .started)) := by simpa [AMPre, emit] using h2
+    exact ⟨fun _ => Or.inl (AMPre_fin _ h3), fun _ => h3⟩
+  sFin := by
+    intro s h
+    rcases h with h | ⟨h1, h2, h3⟩
+    · exact Or.inl (AMPre_fin _ h)
+    · right; simp [fin, h1, h2, h3]
+  iFin := by
+    intro f s msgs s' h he
+    refine Or.inl (invokeLoop_fin (P := AMPre) (Q := AMPre) (fun s k snd h => AMPre_recv s _ h) ?_
+      (fun s h => h) h he)
+    intro s id h
+    rw [cleanup_eq]; simpa [AMPre] using h
+  iPanic := by
+    intro f s msgs s' v buf h he
+    have : AMPre s' := invokeLoop_panicked (P := AMPre) (Q := AMPre) (fun s k snd h => AMPre_recv s _ h) ?_
+      (fun s h => h) h he
+    · exact this
+    intro s id h
+    rw [cleanup_eq]; simpa [AMPre] using h
+  tIerr := fun f s h => AMPre_recv s _ h
+  tMax := by
+    intro f s h _
+    right
+    rw [cleanup_eq]
+    refine ⟨rfl, rfl, ?_⟩
+    simp only [emit, List.append_assoc, List.append_nil]
+    rw [afterMaxOK_append _ _ h]
+    simp [afterMaxOK]
+  tRestart := by
+    intro f s h _
+    have := AMPre_recv s .stopped h
+    simpa [AMPre, emit] using this
 
 /-- when the budget is exhausted the trace ends with the clean stop sequence. -/
 theorem after_max_ok (max mw : Nat) (script : List Outcome) (batches : List (List Msg)) :
     afterMaxOK (runHistory max mw script batches).1.trace = true := by
-  sorry
+  have := amTriple.runHistory max mw script batches (by simp [AMPre]) (by
+    intro s h ho
+    rcases h with h | ⟨_, h2, _⟩
+    · exact h
+    · rw [h2] at ho; cases ho)
+  rcases this with h | ⟨_, _, h⟩
+  · exact afterMaxOK_of_not_mem _ h
+  · exact h
 
 end HW.Proc
